@@ -201,6 +201,20 @@ inline void access(uintptr_t addr, size_t size, bool isWrite, uintptr_t pc)
     ++t_inRt;
     g->rep.accesses++;
     const int t = t_tid;
+    if (!isWrite && size == 1 && !g->guardVc.empty())
+    {
+        // the compiler's inline fast path of a function-local static: an acquire load of the guard byte. If another
+        // thread finished the initialisation (guard release), this load orders its writes before everything that follows here.
+        auto gv = g->guardVc.find(reinterpret_cast<void*>(addr));
+        if (gv != g->guardVc.end())
+        {
+            for (int u = 0; u < MAXT; ++u)
+                if (gv->second[static_cast<size_t>(u)] > g->vc[t][u])
+                    g->vc[t][u] = gv->second[static_cast<size_t>(u)];
+            --t_inRt;
+            return;  // the guard byte itself is synchronisation, not data
+        }
+    }
     const uintptr_t first = addr >> 3, last = (addr + (size ? size - 1 : 0)) >> 3;
     for (uintptr_t gr = first; gr <= last; ++gr)
     {
